@@ -21,7 +21,7 @@ LEVEL = "exploration"
 SPEC_P = dict(n_species=(1, 4), n_reactions=(0, 3), max_order=3, max_cells=12, graph_nodes=(1, 6), graph_edges=(0, 9),
               allow_self_loops=True, allow_parallel=True, allow_len1_periodic=True, allow_len2_periodic=True,
               n_mol=(0.02, 300.0), state="mixed", p_zero_D=0.2, p_zero_k=0.2)
-SCRIPT_P = {"steps": (1, 25), "allow_empty_ts": True, "p_seed": 1.0, "courant": (0.01, 0.6), "tauleap_overshoot": 0.4}
+SCRIPT_P = {"steps": (1, 25), "allow_empty_ts": True, "p_seed": 1.0, "courant": (0.01, 0.6), "tauleap_overshoot": 0.4, "p_tiny_interval": 0.08}
 FILLS = (0x00, 0xbe)
 
 
